@@ -5,7 +5,7 @@ declare -A NEAR=(
  [B1]="C03 C08 C09 C14 C19" [B2]="C08 C10 C17" [B3]="C04 C02 C06 C01" [B4]="C07 C14 C16 C18"
  [B5]="C12 C13 C17" [B6]="C17 C20 C14" [B7]="C05 C03 C14" [B8]="C04 C08 C09 C10"
  [B9]="C15 C14" [B10]="C19 C07 C03" [B11]="C13 C08 C17 C12 C03" [B12]="C11 C01 C02 C03 C16"
- [B13]="C18 C17 C10" [B14]="C07 C14" [B15]="C10 C08 C09 C05 C18" [B16]="C20 C15 C05 C04 C14"
+ [B13]="C18 C17 C10" [B14]="C07 C14" [B15]="C10 C08 C09 C05 C18" [B16]="C20 C15 C05 C04 C14" [B17]="C19 C03 C14 C08 C09 C18" [B18]="C17 C12 C13" [B19]="C13 C08 C09" [B20]="C14 C15 C05 C06 C03" [B22]="C12 C06 C03 C01 C02 C11"
 )
 IDS=("$@"); [ ${#IDS[@]} -eq 0 ] && IDS=($(ls /verif/benign | sort -V))
 WORK=/tmp/bmatrixT; rm -rf $WORK; mkdir -p $WORK
@@ -14,7 +14,7 @@ source /verif/bin/env.sh
 for S in "${IDS[@]}"; do
   D=/verif/benign/$S; WT=$WORK/wt-$S
   git -C /repo worktree prune; git -C /repo worktree add --detach $WT HEAD >/dev/null 2>&1 || { echo "$S worktree failed"; continue; }
-  if ! git -C $WT apply $D/patch.diff 2>/dev/null; then echo "$S PATCH DOES NOT APPLY" | tee $D/matrix_thorough.txt; git -C /repo worktree remove --force $WT; continue; fi
+  if ! git -C $WT apply $( [ -f $D/patch.rebased.diff ] && echo $D/patch.rebased.diff || echo $D/patch.diff ) 2>/dev/null; then echo "$S PATCH DOES NOT APPLY" | tee $D/matrix_thorough.txt; git -C /repo worktree remove --force $WT; continue; fi
   : > $D/matrix_thorough.txt
   for PR in ${NEAR[$S]}; do
     OUT=$(cd $WORK/verif && REPO_DIR=$WT bin/check $PR thorough 2>&1); RC=$?
